@@ -539,6 +539,8 @@ func namedPortMayMeetIPGo(w *World) bool {
 	return false
 }
 
+var reqTok = regexp.MustCompile(`\{Key:[^{}]*\}`)
+var reqRun = regexp.MustCompile(`\{Key:[^{}]*\}(,\{Key:[^{}]*\})+`)
 var valuesList = regexp.MustCompile(`Values:\[([^\]]*)\]`)
 
 // sortValuesLists rewrites every `Values:[a b c]` of a printed requirement with its values in sorted order
@@ -549,6 +551,13 @@ func sortValuesLists(s string) string {
 		return "Values:[" + strings.Join(vs, " ") + "]"
 	})
 	// the lines are sorted by their text, so another order of the values may also move a line
+	// the requirements of one selector are sorted by their text, values included: another order of the values may also
+	// move a requirement among its neighbours
+	n = reqRun.ReplaceAllStringFunc(n, func(m string) string {
+		toks := reqTok.FindAllString(m, -1)
+		sort.Strings(toks)
+		return strings.Join(toks, ",")
+	})
 	// and two spellings of one requirement are two entries with two lines (one line twice when they are spelled alike)
 	lines := strings.Split(n, "\n")
 	sort.Strings(lines)
